@@ -234,6 +234,19 @@ def run(R):
             return [("const", op.get("int"))]
         if depth == 0:
             return [("var", None)]
+        if fn.kind == "Closure":
+            # a captured local (`let first_having_slot = aggregates.len();` used inside the visitor closure): its value is the
+            # parent's operand the closure was built with
+            os_ = F.origins(fn, op, depth=6, through_calls=False)
+            if len(os_) == 1 and os_[0].kind == "arg" and os_[0].arg == 1:
+                flds = [e["f"] for e in (os_[0].place or {}).get("p", []) if isinstance(e, dict) and "f" in e]
+                par = P.fns.get(fn.parent_key)
+                if flds and par is not None:
+                    parv = PR.view(P, par) if par.kind != "Closure" else par
+                    made = [st for i_, st in parv.stmts() if st["k"] == "assign" and st["rv"]["k"] == "aggr" and st["rv"].get("ak") == "closure"
+                            and st["rv"].get("closure") == fn.raw["key"] and len(st["rv"]["ops"]) > flds[0]]
+                    if len(made) == 1 and not (made[0]["rv"]["ops"][flds[0]].get("ty") or "").startswith("&mut"):
+                        return sum_leaves(parv, made[0]["rv"]["ops"][flds[0]], depth - 1)
         l = op["pl"]["l"]
         if op["pl"]["p"]:
             # field of a tuple produced by AddWithOverflow: (sum, overflowed).0 - or a usize field of a local parameter struct
